@@ -7,11 +7,11 @@ namespace Qbee.Using
 
 /-- fits => exactly the width of the field, right-aligned, sign directly before the digits -/
 theorem num_width (sp : NumSpec) (neg : Bool) (body : Str) (hb : sp.signEnd = false) (h : Fits sp body) :
-    renderNum sp neg body = blanks (sp.width - (body.length + 1)) ++ signOf sp neg :: body ∧
-    (renderNum sp neg body).length = sp.width := by
+    renderCore sp neg body = blanks (sp.width - (body.length + 1)) ++ signOf sp neg :: body ∧
+    (renderCore sp neg body).length = sp.width := by
   unfold Fits at h
-  have key : renderNum sp neg body = blanks (sp.width - (body.length + 1)) ++ signOf sp neg :: body := by
-    simp only [renderNum, hb, signOf]
+  have key : renderCore sp neg body = blanks (sp.width - (body.length + 1)) ++ signOf sp neg :: body := by
+    simp only [renderCore, hb, signOf]
     by_cases hlt : body.length + 1 < sp.width
     · simp [hlt, blanks]
       split <;> simp_all <;> omega
@@ -23,20 +23,20 @@ theorem num_width (sp : NumSpec) (neg : Bool) (body : Str) (hb : sp.signEnd = fa
 /-- a non-negative value in a field without '+' may use the sign position for a digit -/
 theorem num_width_uses_sign_position (sp : NumSpec) (body : Str) (hb : sp.signEnd = false)
     (hs : sp.signChar ≠ some '+') (h : body.length = sp.width) :
-    renderNum sp false body = body := by
+    renderCore sp false body = body := by
   have hw : sp.width = body.length := h.symm
   have h1 : ¬ (body.length + 1 < body.length) := by omega
-  simp [renderNum, hb, hs, hw, h1]
+  simp [renderCore, hb, hs, hw, h1]
 
 /-- only a value that cannot fit is widened, and then it is marked with a leading '%' -/
 theorem overflow_mark (sp : NumSpec) (neg : Bool) (body : Str) (hb : sp.signEnd = false)
     (h : sp.width < body.length + (if signOf sp neg = ' ' then 0 else 1)) :
-    ∃ rest, renderNum sp neg body = '%' :: rest ∧ sp.width < rest.length ∧ rest.drop (rest.length - body.length) = body := by
+    ∃ rest, renderCore sp neg body = '%' :: rest ∧ sp.width < rest.length ∧ rest.drop (rest.length - body.length) = body := by
   by_cases hsg : signOf sp neg = ' '
   · simp only [hsg, if_true, Nat.add_zero] at h
     refine ⟨body, ?_, h, by simp⟩
     have hs' : (if neg = true then '-' else if sp.signChar = some '+' then '+' else ' ') = ' ' := hsg
-    simp only [renderNum, hb, hs']
+    simp only [renderCore, hb, hs']
     simp
     have : ¬ (body.length + 1 < sp.width) := by omega
     simp [this]
@@ -46,9 +46,44 @@ theorem overflow_mark (sp : NumSpec) (neg : Bool) (body : Str) (hb : sp.signEnd 
     refine ⟨signOf sp neg :: body, ?_, by simp; omega, by simp⟩
     have hs' : (if neg = true then '-' else if sp.signChar = some '+' then '+' else ' ') = signOf sp neg := rfl
     have hne : ¬ (signOf sp neg = ' ') := hsg
-    simp only [renderNum, hb, hs']
+    simp only [renderCore, hb, hs']
     have : ¬ (body.length + 1 < sp.width) := by omega
     simp [this, hne, h]
+
+/-- a field with a trailing sign: the digits right-aligned in front of the sign position, which is the last one
+    (as repaired: a blank was put in front of non-negative values) -/
+theorem num_width_trailing_sign (sp : NumSpec) (neg : Bool) (body : Str) (hb : sp.signEnd = true) (h : Fits sp body) :
+    renderCore sp neg body = blanks (sp.width - (body.length + 1)) ++ body ++ [signOf sp neg] ∧
+    (renderCore sp neg body).length = sp.width := by
+  unfold Fits at h
+  have key : renderCore sp neg body = blanks (sp.width - (body.length + 1)) ++ body ++ [signOf sp neg] := by
+    simp only [renderCore, hb, signOf]
+    by_cases hlt : body.length + 1 < sp.width
+    · simp [hlt, blanks]
+      split <;> simp_all <;> omega
+    · have heq : body.length + 1 = sp.width := by omega
+      simp [blanks, heq.symm]
+  refine ⟨key, ?_⟩
+  rw [key]; simp [blanks]; omega
+
+/-- the rendered field is the core applied to the number text with its edge point: "##." shows the point, ".##" drops the
+    zero that has no position -/
+theorem edge_points (sp : NumSpec) (neg : Bool) (body : Str) :
+    renderNum sp neg body = renderCore sp neg (adjustPoint sp body) ∧
+    (sp.decimalPoint.isSome = true → sp.decimalsN = 0 → adjustPoint sp body = body ++ ['.']) ∧
+    (sp.decimalPoint = none → adjustPoint sp body = body) := by
+  refine ⟨rfl, ?_, ?_⟩
+  · intro h1 h2; simp [adjustPoint, h1, h2]
+  · intro h1; simp [adjustPoint, h1]
+
+/-- the scanner counts the decimals of a field with a trailing sign without the sign position
+    (as repaired: "#.##-" asked for three decimals) -/
+example : (parseNumeric "#.##-".toList).1.decimals = some 2 ∧ (parseNumeric "#.##-".toList).1.width = 5 := by decide
+example : renderNum (parseNumeric "#.##-".toList).1 false "1.23".toList = "1.23 ".toList := by decide
+example : renderNum (parseNumeric "###-".toList).1 false "100".toList = "100 ".toList := by decide
+example : renderNum (parseNumeric ".##".toList).1 false "0.50".toList = ".50".toList := by decide
+example : renderNum (parseNumeric "##.".toList).1 false "5".toList = " 5.".toList := by decide
+example : scanFmt "#-#".toList = .ok [.num (parseNumeric "#-".toList).1, .num (parseNumeric "#".toList).1] := by decide
 
 /-- "&" prints the whole string, "!" its first character -/
 theorem amp_bang (s : Str) (c : Char) (r : Str) :
@@ -67,7 +102,7 @@ theorem literal_copied (s : Str) (h : ∀ c ∈ s, isSpecial c = false) :
 
 /-- a character escaped with an underscore is copied as a literal, whatever it is -/
 theorem escape_copied (c : Char) : scanFmt ['_', c] = .ok [.non [c]] := by
-  simp [scanFmt, scan, flush]
+  simp [scanFmt, scan, flush, startsField]
 
 /-! ### values are consumed left to right, one per field -/
 
